@@ -7,6 +7,7 @@ from ..engine.loader import Unknown, norm_text, walk_local, FUNC_TYPES
 from ..engine.sym import is_sym
 from ..rules import thunks
 from ..rules.world import STATE, Shapes, eager_interp, emit_report_summary
+from . import c02
 
 EXPLANATION = (
     "The statement is about the run-time value graph; statically the protocol that makes order irrelevant is decided, each "
@@ -463,3 +464,4 @@ def run(ck):
     ck.run_rule("C03.R7", "LinearPolynomial algebra as polynomial normal forms", 18, rule_R7)
     ck.run_rule("C03.R8", "no early commitment to an exported binding", 2, rule_R8)
     ck.run_rule("C03.R9", "symbol tables are read by duplicate guards, lazily, or finally", 8, rule_R9)
+    ck.run_rule("C02.R7w", "unused definitions are evaluated too (their errors do not depend on use order)", 1, c02.rule_closing_wait)
